@@ -2,6 +2,7 @@
 //! It replays TLC-generated cases into the real code and records what the code did as ndjson traces that
 //! TLC then validates against the specifications. It never judges a property itself.
 mod cal;
+mod curve;
 mod fx;
 mod named;
 mod numvm;
@@ -21,6 +22,7 @@ fn main() {
         "cal" => cal::main(&args[1..]),
         "named" => named::main(&args[1..]),
         "fx" => fx::main(&args[1..]),
+        "curve" => curve::main(&args[1..]),
         "numvm" => numvm::main(&args[1..]),
         other => {
             eprintln!("unknown engine {}", other);
